@@ -95,6 +95,7 @@ PerfectSpec(fn) ==
     [] fn = "segment.evaluate" -> Rep("is1", 6) \o Rep("is0", 2) \o Rep("is1", 5) \o <<"any">> \o Rep("is1", 8)
     [] fn = "chord.evaluate" -> Rep("is1", 15)
     [] fn = "melody.evaluate" -> <<"is1", "is0", "is1", "is1", "is1">>
+    [] fn = "melody.evaluate[soft reward]" -> <<"any", "any", "is1", "is1", "any">>   \* a soft reference reward: the voicing measures are means of weights, only the pitch accuracies have the copy as their optimum
     [] fn = "multipitch.metrics" -> <<"is1", "is1", "is1", "is0", "is0", "is0", "is0", "is1", "is1", "is1", "is0", "is0", "is0", "is0">>
     [] fn = "multipitch.evaluate" -> <<"is1", "is1", "is1", "is0", "is0", "is0", "is0", "is1", "is1", "is1", "is0", "is0", "is0", "is0">>
     [] fn = "transcription.precision_recall_f1_overlap" -> Rep("is1", 4)
